@@ -77,6 +77,55 @@ example : (dimsOf (Ex.pCS ℝ)).sum = (Ex.pCS ℝ).m ∧ RowsOK (Ex.pCS ℝ) ∧
     ∧ ∃ a, adjSolve .gso (Ex.pCS ℝ) = .ok a ∧ a.x = #[0, 1/2] ∧ a.defect = 1 :=
   ⟨by decide, Ex.pCS_rows, Ex.pCS_weight, Ex.pCS_gso_unambiguous, Ex.pCS_homogenise, Ex.pCS_adj_gso⟩
 
+/-- the theorem applied to the instance: the answer of `Adj` + gso on `Ex.pCS ℝ` is a least-squares
+    solution of the ORIGINAL weighted problem (all models on the one instance `fieldScalar Real.sqrt`) -/
+example : ∃ a, adjSolve .gso (Ex.pCS ℝ) = .ok a ∧
+    IsLSSolution (Ex.pCS ℝ).A (Ex.pCS ℝ).b (Ex.PCS ℝ) (Ex.pCS ℝ).S
+      (toVec (Ex.pCS ℝ).n a.x) (toVec (Ex.pCS ℝ).m a.r) a.rtr := by
+  obtain ⟨a, h, -⟩ := Ex.pCS_adj_gso
+  exact ⟨a, h, C01_adj_gso (Ex.pCS ℝ) (by decide) Ex.pCS_rows (Ex.PCS ℝ) Ex.pCS_weight
+    Ex.pCS_gso_unambiguous a h⟩
+
+/-- non-vacuity of `C01_adj_svd_cert` over ℝ (`Real.sqrt`) — complete EXCEPT for one evaluation.
+    `Ex.pCV`: the same covariance (correlated block `[[4,2],[2,10]]` + variance 4),
+    A = [[12,16],[15,20],[12,16]] (rank 1, kernel (4,−3), defect 1), S = {1}.  Shown over ℝ:
+    dimensions, rows, weight matrix, `RegOK`; `homogenise` returns `A_dot = [[6,8],[3,4],[6,8]]`,
+    `b_dot = (1/2,1/2,3/2)`; the explicit factors `Ex.dCV` (U, W = (0,15), V) satisfy `SvdCert` on that
+    system at the model's own tolerance `Svd.wTol`; the post-decomposition model answers with
+    x = (0, 1/8), defect 1; and IF `Svd.decompose 3 2 A_dot = .ok Ex.dCV` over ℝ, THEN the hypothesis
+    `hc` holds and `adjSolve .svd Ex.pCV = .ok a` with x = (0, 1/8), defect 1.
+    MISSING: `Svd.decompose 3 2 A_dot = .ok Ex.dCV` over ℝ itself.  The transliterated Golub–Reinsch
+    iteration (a 250-line `do` block with nested loops) could not be evaluated symbolically over ℝ
+    (`simp`/`norm_num` blow up already on a 1×1 matrix); it IS evaluated by the kernel over ℚ with
+    a square root exact on the four values the run takes roots of (9/25, 1, 625/576, 25/16) and
+    returns exactly `Ex.dCV` (last conjunct) — all other operations of the run are field operations
+    and comparisons on rationals, which agree in ℚ and ℝ. -/
+example : (dimsOf Ex.pCV).sum = Ex.pCV.m ∧ RowsOK Ex.pCV ∧ Ex.pCV.C * Ex.PCV = 1 ∧ Svd.RegOK Ex.pCV.reg
+    ∧ homogenise Ex.pCV = .ok (#[#[6, 8], #[3, 4], #[6, 8]], #[1/2, 1/2, 3/2])
+    ∧ Svd.SvdCert Real.sqrt (Svd.wTol : ℝ) 3 2 (#[#[6, 8], #[3, 4], #[6, 8]] : DMat ℝ) Ex.dCV
+    ∧ (∃ s, svdSolveCert true (Svd.wTol : ℝ) Ex.dCV Ex.pCVdot = .ok s ∧ s.x = #[0, 1/8] ∧ s.defect = 1)
+    ∧ (Svd.decompose 3 2 (#[#[6, 8], #[3, 4], #[6, 8]] : DMat ℝ) = .ok Ex.dCV →
+        (∀ Ad bd d, homogenise Ex.pCV = .ok (Ad, bd) →
+          Svd.decompose Ex.pCV.m Ex.pCV.n (dotProblem Ex.pCV Ad bd (regOf Ex.pCV.reg)).dense = .ok d →
+          Svd.SvdCert Real.sqrt (Svd.wTol : ℝ) Ex.pCV.m Ex.pCV.n
+            (dotProblem Ex.pCV Ad bd (regOf Ex.pCV.reg)).dense d)
+        ∧ ∃ a, adjSolve .svd Ex.pCV = .ok a ∧ a.x = #[0, 1/8] ∧ a.defect = 1)
+    ∧ (@Svd.decompose ℚ (fieldScalar Ex.sqV) 3 2 #[#[6, 8], #[3, 4], #[6, 8]]).toOption.map
+          (fun d => (d.U, d.W, d.V))
+        = some (#[#[1/3, -2/3], #[-14/15, -1/3], #[2/15, -2/3]], #[0, 15], #[#[4/5, -3/5], #[-3/5, -4/5]]) := by
+  obtain ⟨s, hs, hx, hd, -⟩ := Ex.pCVdot_cert_answer
+  exact ⟨by decide, Ex.pCV_rows, Ex.pCV_weight, List.nodup_singleton 1, Ex.pCV_homogenise, Ex.dCV_cert,
+    ⟨s, hs, hx, hd⟩, fun hdec => ⟨Ex.pCV_hc hdec, Ex.pCV_adj_svd hdec⟩, Ex.dCV_decompose_rat⟩
+
+/-- the theorem applied to the instance (under the same missing evaluation): the answer of
+    `Adj` + svd on `Ex.pCV` is a least-squares solution of the original weighted problem -/
+example (hdec : Svd.decompose 3 2 (#[#[6, 8], #[3, 4], #[6, 8]] : DMat ℝ) = .ok Ex.dCV) :
+    ∃ a, adjSolve .svd Ex.pCV = .ok a ∧
+      IsLSSolution Ex.pCV.A Ex.pCV.b Ex.PCV Ex.pCV.S (toVec Ex.pCV.n a.x) (toVec Ex.pCV.m a.r) a.rtr := by
+  obtain ⟨a, h, -⟩ := Ex.pCV_adj_svd hdec
+  exact ⟨a, h, C01_adj_svd_cert Ex.pCV (by decide) Ex.pCV_rows Ex.PCV Ex.pCV_weight
+    (List.nodup_singleton 1) (Ex.pCV_hc hdec) a h⟩
+
 /-- non-vacuity of `C01_adj_cholesky` (Props/C01/Adj.lean) with defect > 0 THROUGH `Adj`: the same
     problem over ℚ (`Ex.sqQ` exact on the pivots 4, 9, 4 of the blocks and on the Gram–Schmidt pivot 1;
     kernel evaluation): every hypothesis holds, and `Adj` + cholesky answers with defect 1,
